@@ -703,7 +703,8 @@ func (server *Server) registerCoreExecutors() {
 			return nil, err
 		}
 
-		msg, err := server.userCommandHandler.ZRange(conn, key, start, stop, opt)
+		// The handler takes indexes in ascending score order: mirrors the reverse-order indexes.
+		msg, err := server.userCommandHandler.ZRange(conn, key, -stop-1, -start-1, opt)
 		if err != nil {
 			return msg, err
 		}
